@@ -14,44 +14,53 @@ MODELS = 'pytableaux.models'
 
 
 class Lit:
-    """Mock literal sentence: atom `p` or its negation."""
+    """Mock literal sentence: a base sentence `p` or its negation.  The base is an atom, a predication or an *opaque*
+    sentence (a compound whose operator the logic does not interpret, e.g. a modal sentence in a non-modal logic:
+    type Operated like its negation)."""
 
-    def __init__(self, neg):
-        self.neg = neg
-        self._typ = T_OPERATED if neg else T_ATOMIC
+    def __init__(self, neg, kind='atomic'):
+        self.neg, self.kind = neg, kind
+        self._typ = T_OPERATED if neg or kind == 'opaque' else {'atomic': T_ATOMIC, 'predicated': T_PREDICATED}[kind]
 
     @property
     def operator(self):
         if self.neg:
             return NEGATION
+        if self.kind == 'opaque':
+            return OPAQUE_OPERATOR
         raise AttributeError('operator')
 
     @property
     def lhs(self):
         if self.neg:
-            return P
+            return LITS[self.kind][0]
+        if self.kind == 'opaque':
+            return LITS['atomic'][0]
         raise AttributeError('lhs')
 
     def __neg__(self):        # Sentence.negative(): un-negate a negation, else negate
-        return P if self.neg else NP
+        return LITS[self.kind][0 if self.neg else 1]
 
     def __invert__(self):
         if self.neg:
-            return Obj('~~p', typ=T_OPERATED, operator=NEGATION, lhs=NP)
-        return NP
+            return Obj('~~p', typ=T_OPERATED, _typ=T_OPERATED, operator=NEGATION, lhs=LITS[self.kind][1])
+        return LITS[self.kind][1]
 
     @property
     def constants(self):
         return frozenset()
 
     def __repr__(self):
-        return '~p' if self.neg else 'p'
+        base = {'atomic': 'p', 'predicated': 'Fa', 'opaque': '[]p'}[self.kind]
+        return '~' + base if self.neg else base
 
 
-T_OPERATED, T_ATOMIC = Obj('Operated'), Obj('Atomic')
+T_OPERATED, T_ATOMIC, T_PREDICATED = Obj('Operated'), Obj('Atomic'), Obj('Predicated')
 NEGATION = Obj('Operator.Negation')
 NEGATION.Negation = NEGATION
-P, NP = Lit(False), Lit(True)
+OPAQUE_OPERATOR = Obj('Operator.Necessity')
+LITS = {k: (Lit(False, k), Lit(True, k)) for k in ('atomic', 'predicated', 'opaque')}
+P, NP = LITS['atomic']
 WORLD = 5
 
 
@@ -155,16 +164,19 @@ def closure_interp(m: Model, rc: ClassRef):
     if not isinstance(sfn, FuncRef):
         raise AnalysisError(f'{rc}.sentence not found')
     rule.sentence = lambda node: it.call(sfn.node, [rule, node])
+    for nm, t in (('Operated', T_OPERATED), ('Atomic', T_ATOMIC), ('Predicated', T_PREDICATED), ('Quantified', Obj('Quantified'))):
+        it.g.setdefault(nm, t)
     return it, rule
 
 
-def partner_table(m: Model, rc: ClassRef, designated_system: bool):
+def partner_table(m: Model, rc: ClassRef, designated_system: bool, kind: str = 'atomic'):
     """For a FindClosingNodeRule: literal (neg, d) -> set of literals (neg', d') it closes with
     *at the same world only*.  Returns (table, fn, problems)."""
     fn, owner = m.method(rc, '_find_closing_node')
     if not isinstance(fn, FuncRef):
         raise AnalysisError(f'{rc}: no _find_closing_node')
     classes = node_classes(m)
+    P, NP = LITS[kind]
     it, rule = closure_interp(m, rc)
     it.where = m.floc(fn)
     des = (True, False) if designated_system else (None,)
